@@ -1,0 +1,43 @@
+//go:build verif
+
+// Contracts for package simple (highlight fragmenter; read by /verif/gocv; comment-only effect with
+// the verif tag off).
+
+package simple
+
+// ---------------------------------------------------------------------------
+// C19: the fragmenter never slices the stored value out of range, also for term locations that lie
+// (partly) beyond the stored value; every fragment refers to the stored value itself and lies
+// inside it
+// ---------------------------------------------------------------------------
+
+// unicode/utf8 (assumed): a decoded rune is 1 to 4 bytes of a non-empty input, never more than there
+// are; an empty input yields (RuneError, 0).
+//@ assume func utf8.DecodeRune(p)
+//@   pure
+//@   ensures result1 >= 0 && result1 <= len(p) && implies(len(p) == 0, result0 == utf8.RuneError && result1 == 0) && implies(len(p) > 0, result1 >= 1 && result1 <= 4)
+//@ assume func utf8.DecodeLastRune(p)
+//@   pure
+//@   ensures result1 >= 0 && result1 <= len(p) && implies(len(p) == 0, result0 == utf8.RuneError && result1 == 0) && implies(len(p) > 0, result1 >= 1 && result1 <= 4)
+//@ assume func utf8.RuneCount(p)
+//@   pure
+//@   ensures 0 <= result && result <= len(p)
+
+//@ spec fragsIn(rv []*highlight.Fragment, orig []byte) bool = forall(k, 0, len(rv), rv[k] != nil && rv[k].Orig == orig && 0 <= rv[k].Start && rv[k].Start <= len(orig) && 0 <= rv[k].End && rv[k].End <= len(orig))
+//@ spec locsOK(ot highlight.TermLocations) bool = forall(k, 0, len(ot), ot[k] != nil && 0 <= ot[k].Start && ot[k].Start <= ot[k].End)
+
+//@ func Fragmenter.Fragment
+//@   props C19
+//@   mode int
+//@   requires s != nil && s.fragmentSize >= 1 && locsOK(ot)
+//@   ensures fragsIn(result, orig)
+//@   loop 0: invariant fragsIn(rv, orig) && (len(rv) == 0 || fresh(rv)) && 0 <= maxbegin
+//@   loop 1: invariant fragsIn(rv, orig) && (len(rv) == 0 || fresh(rv)) && 0 <= maxbegin && start == termLocation.Start && 0 <= used && start <= end && (end <= len(orig) || (used == 0 && end == start))
+//@   loop 1: decreases len(orig) - end
+//@   loop 2: invariant fragsIn(rv, orig) && (len(rv) == 0 || fresh(rv)) && 0 <= maxbegin && 0 <= used && 0 <= start && start <= end && (end <= len(orig) || (used == 0 && end == start))
+//@   loop 2: decreases start
+//@   loop 3: invariant 0 <= minend && minend <= end
+//@   loop 4: invariant fragsIn(rv, orig) && (len(rv) == 0 || fresh(rv)) && 0 <= maxbegin && 0 <= offset && 0 <= start && start <= len(orig) && 0 <= end && end <= len(orig)
+//@   loop 4: decreases offset
+//@   loop 5: invariant 0 <= end && end <= len(orig) && 0 <= used && start == 0
+//@   loop 5: decreases len(orig) - end
